@@ -50,7 +50,7 @@ RULE = (
 ASSUMPTIONS = [
     "jax.random.truncated_normal(key, -2, 2) returns values in [-2, 2]; the CEM draw is monotone in the variate, so the stubbed variates {-2,-1,0,1,2} cover the extremes",
     "jax.random.multivariate_normal / split are deterministic functions of the key (finite key alphabet); populations are the real draws for those keys",
-    "CMA-ES: populations of 4 (5, 6 for a single generation), dimensions 1-3, 2 (3) generations, initial variance 1, identity covariance; fitness values are small integers (+-0.5, +-0.25), inf, -inf, nan",
+    "CMA-ES: populations of 4 (5, 6 for a single generation), dimensions 1-3, 2 (3) generations, initial variance 1 (plus 0.04 / 25 and narrow-box configurations), identity covariance; fitness values are small integers (+-0.5, +-0.25), inf, -inf, nan",
     "nan fitness is read as 'worse than every number' for the mu-best selection and is never a 'best candidate'; a history of only-nan candidates has no best candidate (no incumbent check)",
     "ties: any tie-consistent choice of the mu best / of the n_elite best / of the incumbent's parameters is accepted",
     "CEM with nan fitness is outside the property (observed and counted only)",
@@ -164,6 +164,17 @@ def items(tier, seed):
             out.append(dict(name=f"cma-d{dim}-a{int(active)}-k{ks}-m{int(mx)}-g1[{lo}:{hi}]", part="cma", dim=dim,
                             active=active, maximize=mx, kseed=ks + 2 * seed, pop=pop, block=[lo, hi],
                             gens=2, lite1=quick, lite2=quick, gen3=False))
+    # configurations beyond "variance 1, no bounds": a small / large initial step size (the active update
+    # divides by the step size) and a box so narrow that most samples are clipped (the evaluated candidate is
+    # the clipped one)
+    extra = [(2, True, 0.04, None), (2, False, 1.0, [[0.4, 0.8], [0.4, 0.8]]), (3, True, 25.0, None)]
+    if not quick:
+        extra += [(1, True, 0.04, None), (3, True, 0.04, [[0.0, 1.0]] * 3), (2, True, 1.0, [[0.4, 0.8], [-5.0, 5.0]]), (1, False, 0.04, [[0.4, 0.8]])]
+    for dim, active, var, bnds in extra:
+        for lo, hi in chunks(n1, 6):
+            out.append(dict(name=f"cmaX-d{dim}-a{int(active)}-v{var}-b{int(bnds is not None)}-g1[{lo}:{hi}]", part="cma", dim=dim,
+                            active=active, maximize=False, kseed=1 + 2 * seed, pop=pop, block=[lo, hi],
+                            gens=2, lite1=True, lite2=True, gen3=False, variance=var, bounds=bnds))
     if not quick:
         # 3 generations of strict rankings
         n1s = len(strict_orders(pop))
@@ -487,11 +498,12 @@ def explore_from_generation1(item, col, cfg, cfgname, st0, p0, a):
 
 def work_cma(item, col):
     dim, pop = item["dim"], item["pop"]
-    cfg = C.CMAESConfig.create(item["active"], None, item["maximize"], None, 0.0, None, dim, pop)
-    cfgname = (dim, pop, item["active"], item["maximize"], item["kseed"])
+    bnds = item.get("bounds")
+    cfg = C.CMAESConfig.create(item["active"], None if bnds is None else jnp.asarray(bnds), item["maximize"], None, 0.0, None, dim, pop)
+    cfgname = (dim, pop, item["active"], item["maximize"], item["kseed"], item.get("variance", 1.0), bnds is not None)
     check_weights(col, "CMAESConfig.create", cfg, dict(n_params=dim, population=pop, active=item["active"]))
     init = jnp.zeros(dim) + 0.5 + 0.125 * (item["kseed"] % 3)
-    st0 = C.CMAESState.create(jax.random.key(item["kseed"]), init, 1.0, None)
+    st0 = C.CMAESState.create(jax.random.key(item["kseed"]), init, item.get("variance", 1.0), None)
     p0 = C.Population.create(C.sample_population(cfg, st0))
     alpha1 = (list(strict_orders(pop)) if item["gen3"] else list(weak_orders(pop)) + list(nonfinite(pop, item["lite1"])))
     lo, hi = item["block"]
